@@ -778,15 +778,18 @@ Proof.
         assert (k < fst e) by (apply Hlt; apply in_map; exact He). lia.
 Qed.
 
+Lemma combine_seq_map_from {A} (l : list A) (d : A) (f : nat -> Z) : forall a,
+  combine l (map f (seq a (length l))) = map (fun j => (nth (j - a) l d, f j)) (seq a (length l)).
+Proof.
+  induction l as [|x l IH]; intros a; [reflexivity|]. simpl. rewrite Nat.sub_diag. f_equal.
+  rewrite IH. apply map_ext_in. intros j Hj. apply in_seq in Hj.
+  destruct (j - a) as [|k] eqn:E; [lia|]. replace (j - S a) with k by lia. reflexivity.
+Qed.
+
 Lemma combine_seq_map {A} (l : list A) (d : A) (f : nat -> Z) :
   combine l (map f (seq 0 (length l))) = map (fun j => (nth j l d, f j)) (seq 0 (length l)).
 Proof.
-  induction l as [|x l IH] using rev_ind; [reflexivity|].
-  rewrite app_length. simpl length. rewrite Nat.add_1_r, seq_S, !map_app. simpl.
-  rewrite combine_app by (rewrite map_length, seq_length; reflexivity).
-  rewrite IH. f_equal.
-  - apply map_ext_in. intros j Hj. apply in_seq in Hj. rewrite app_nth1 by lia. reflexivity.
-  - simpl. rewrite app_nth2 by lia. rewrite Nat.sub_diag. reflexivity.
+  rewrite (combine_seq_map_from l d f 0). apply map_ext. intros j. rewrite Nat.sub_0_r. reflexivity.
 Qed.
 
 Lemma filter_map_comm {A B} (p : B -> bool) (h : A -> B) l :
